@@ -903,38 +903,49 @@ class Exceptions:
         return out
 
     # -- escape computation ---------------------------------------------------
-    def compute(self, roots):
-        reach = self.cg.reachable(roots, self.follow)
-        self.reach = reach
-        funcs = [v[0] for v in reach.values()]
+    # esc[fq] : dict (ExcClass, origin) -> witness path; origin = 'file::function'
+    # of the raise statement / implicit raiser.
+    def compute(self, roots, funcs=None):
+        if funcs is None:
+            reach = self.cg.reachable(roots, self.follow)
+            funcs = [v[0] for v in reach.values()]
+        self.funcs = funcs
         for f in funcs:
             self.esc[f.fq] = {}
         changed, rounds = True, 0
-        while changed and rounds < 30:
+        while changed and rounds < 40:
             changed = False
             rounds += 1
             for f in funcs:
                 new = self._escapes(f)
                 cur = self.esc[f.fq]
-                for c, w in new.items():
-                    if c not in cur:
-                        cur[c] = w
+                for k, w in new.items():
+                    if k not in cur:
+                        cur[k] = w
                         changed = True
         return self.esc
+
+    def classes_of(self, fi):
+        """dict class name -> (ExcClass, origin, witness) for one function."""
+        out = {}
+        for (c, origin), w in self.esc.get(fi.fq, {}).items():
+            out.setdefault((c.name, origin), (c, origin, w))
+        return out
 
     def _escapes(self, fi):
         out = {}
         self._walk(fi, fi.body, [], out, None)
         return out
 
-    def _add(self, out, handlers_stack, cls, witness, fi):
+    def _add(self, out, handlers_stack, cls, origin, witness, fi):
         """Raise `cls` at a point enclosed by handlers_stack (innermost last)."""
+        if (cls.name, origin) in self.suppress:
+            return
         for hs in reversed(handlers_stack):
             for (hclasses, conv) in hs:
                 if any(self.is_sub(cls, hc) for hc in hclasses):
-                    return  # caught here (handler body raises are walked separately)
-        if cls not in out:
-            out[cls] = witness
+                    return  # caught here (handler bodies are walked separately)
+        out.setdefault((cls, origin), witness)
 
     def _walk(self, fi, body, hstack, out, in_handler):
         for st in body:
@@ -953,12 +964,12 @@ class Exceptions:
                 continue
             if isinstance(st, ast.Assert):
                 self._add(out, hstack, self.builtin(AssertionError),
+                          _origin(fi),
                           ['%s:%d assert in %s' % (fi.module.rel, st.lineno,
                                                    fi.qualname)], fi)
             if isinstance(st, (ast.FunctionDef, ast.AsyncFunctionDef,
                                ast.ClassDef)):
                 continue
-            # expressions of this statement
             for e in _own_exprs(st):
                 self._expr(fi, e, hstack, out)
             for fld in ('body', 'orelse', 'finalbody'):
@@ -973,36 +984,31 @@ class Exceptions:
         if st.exc is None or (in_handler and isinstance(st.exc, ast.Name)
                               and st.exc.id == in_handler[0].name):
             if in_handler is None:
-                self._add(out, hstack, self.builtin(RuntimeError),
+                self._add(out, hstack, self.builtin(RuntimeError), _origin(fi),
                           [where + ' (bare raise outside handler)'], fi)
                 return
-            # re-raise what the handler caught: the classes that can reach it
             h, hclasses, trystmt, inner_stack = in_handler
             sub = {}
             self._walk(fi, trystmt.body, [], sub, None)
-            # keep only those matched by this handler and not by an earlier one
             earlier = []
             for hh in trystmt.handlers:
                 if hh is h:
                     break
                 earlier.extend(self.handler_classes(fi, hh))
-            for c, w in sub.items():
+            for (c, origin), w in sub.items():
                 if any(self.is_sub(c, hc) for hc in hclasses) and not any(
                         self.is_sub(c, ec) for ec in earlier):
-                    self._add(out, hstack, c, w + [where + ' (re-raise)'], fi)
+                    self._add(out, hstack, c, origin,
+                              w + [where + ' (re-raise)'], fi)
             return
         for e in ([st.exc] if not isinstance(st.exc, ast.IfExp) else
                   [st.exc.body, st.exc.orelse]):
             c = self.exc_of_expr(fi, e)
+            w = where
             if c is None:
-                # raising a variable (e.g. `raise ex` of another kind)
                 c = self.builtin(Exception)
-                where += ' (unresolved class `%s`)' % norm_src(e)
-            key = '%s::%s::raise %s' % (fi.module.rel, fi.qualname, c.name)
-            if (key, None) in self.suppress:
-                continue
-            self._add(out, hstack, c, [where], fi)
-            # arguments of the raise call may themselves call
+                w += ' (unresolved class `%s`)' % norm_src(e)
+            self._add(out, hstack, c, _origin(fi), [w], fi)
             if isinstance(e, ast.Call):
                 for a in e.args:
                     self._expr(fi, a, hstack, out)
@@ -1021,9 +1027,14 @@ class Exceptions:
     def _call(self, fi, call, hstack, out):
         for ed in self.cg._resolve_callee(fi, call.func, call, 'call'):
             if ed.is_ext:
+                if ed.dst.startswith('?.') and ed.dst in self.implicit and \
+                        not self._dynamic_args(fi, call):
+                    continue  # ids are static constants: cannot clash
                 for c in self.implicit.get(ed.dst, []):
                     t = getattr(builtins, c, None)
-                    self._add(out, hstack, self.builtin(t) if t else ExcClass(c),
+                    self._add(out, hstack,
+                              self.builtin(t) if t else ExcClass(c),
+                              _origin(fi),
                               ['%s:%d %s calls %s' % (
                                   fi.module.rel, call.lineno, fi.qualname,
                                   ed.dst)], fi)
@@ -1031,21 +1042,35 @@ class Exceptions:
             if not self.follow(ed):
                 continue
             self._propagate(fi, ed.dst, call, hstack, out)
+        # callables passed as arguments are treated as called here
+        for a in list(call.args) + [k.value for k in call.keywords]:
+            if isinstance(a, (ast.Name, ast.Attribute)):
+                for ed in self.cg._resolve_callee(fi, a, a, 'ref'):
+                    if not ed.is_ext and self.follow(ed):
+                        self._propagate(fi, ed.dst, call, hstack, out)
+
+    def _dynamic_args(self, fi, call):
+        """Does any argument of `call` derive from a local / parameter / self?"""
+        loc = self.cg.locals_of(fi)
+        for a in list(call.args) + [k.value for k in call.keywords]:
+            for n in ast.walk(a):
+                if isinstance(n, ast.Name) and n.id in loc:
+                    return True
+        return False
 
     def _propagate(self, fi, g, node, hstack, out):
         sub = self.esc.get(g.fq)
         if not sub:
             return
-        ekey = '%s::%s->%s' % (fi.module.rel, fi.qualname, g.qualname)
-        for c, w in sub.items():
-            rk = w[0].split(' raise in ')
-            if any(s[1] == ekey and c.name in s[0] for s in self.suppress
-                   if s[1]):
-                continue
-            self._add(out, hstack, c,
+        for (c, origin), w in sub.items():
+            self._add(out, hstack, c, origin,
                       w + ['%s:%d %s <- called from %s' % (
                           fi.module.rel, getattr(node, 'lineno', 0),
                           g.qualname, fi.qualname)], fi)
+
+
+def _origin(fi):
+    return '%s::%s' % (fi.module.rel, fi.qualname)
 
 
 def _own_exprs(st):
